@@ -149,7 +149,7 @@ class SBool:
         return SBool(self.t != term(o))
 
     def __hash__(self):
-        return id(self)
+        raise Unsupported("symbolic boolean used as a hash key (set/dict member)")
 
     def implies(self, o):
         return SBool(z3.Implies(self.t, term(o)))
@@ -346,7 +346,7 @@ class SNum:
         return True if r is NotImplemented else r
 
     def __hash__(self):
-        return id(self)
+        raise Unsupported("symbolic number used as a hash key (set/dict member): use the set/dict contracts of pyvc.symcoll")
 
     def __bool__(self):
         return ctx().branch(self.t != 0)
